@@ -23,7 +23,8 @@ def run_property(pid: str, ss: SourceSet, tier: str, seed: int, audit: bool = Fa
     rep.extra["digest"] = ss.digest()
     prog = Program(ss)
     mod.run(prog, rep)
-    rep.check_floors()
+    if not rep.findings:        # a floor guards against passing vacuously; with findings the run does not pass anyway
+        rep.check_floors()
     return rep
 
 
